@@ -8,17 +8,41 @@ seeds.  DESIGN 3/C18.
 """
 import json
 import os
+import re
 import subprocess
 import sys
 
 from .. import common, explore, scenarios as S, sched
 
 PROP = 'C18'
+FRESH_NAME = re.compile(r'x\d+__fresh')
 
 FRESH = '''(declare-const a Int)
 (declare-const b Int)
 (assert (> (+ (* a b) (* a b)) (- a b)))
 (assert (< (* a b) 10))
+(check-sat)
+'''
+
+
+# inputs on which several mutators of one group compete and the command
+# accepts all of them: the result depends on the order in which they are tried
+CONFL = '''(declare-const a Bool)
+(declare-const b Bool)
+(assert (xor a false))
+(assert (=> a b (not b)))
+(assert (not (and a (not (not b)))))
+(check-sat)
+'''
+CONFL_ARITH = '''(declare-const n Int)
+(declare-const m Int)
+(assert (not (<= n 50 m)))
+(assert (>= (+ n 10) (* m 20)))
+(check-sat)
+'''
+CONFL_BV = '''(declare-const x (_ BitVec 8))
+(assert (= ((_ zero_extend 4) ((_ zero_extend 4) x)) (concat #x00 (bvnot (bvnot #xab)) )))
+(assert (= (bvcomp x #x12) #b1))
 (check-sat)
 '''
 
@@ -35,7 +59,41 @@ def menu(tier):
            ('fresh2', FRESH, ('count', '*', 1), 'default'),
            ('asserts8', S.ASSERTS8, ('has', ['xor', 'p']), 'core'),
            ('consts', S.CONSTS, ('count', '>', 2), 'default'),
-           ('commented', S.COMMENTED, ('has', ['or']), 'default')]
+           ('commented', S.COMMENTED, ('has', ['or']), 'default'),
+           ('confl', CONFL, ('has', ['a']), 'default'),
+           ('confl2', CONFL, ('count', 'assert', 3), 'default'),
+           ('confl-arith', CONFL_ARITH, ('has', ['n', 'm']), 'default'),
+           ('confl-bv', CONFL_BV, ('has', ['x']), 'default')]
+    # commands that accept exactly a few competing rewrites of one term: the
+    # result shows which of the competing mutators was tried first
+    for k in (3, 6):
+        fam.append((f'confl-k{k}', CONFL, ('and', ('count', '(', k),
+                                           ('has', ['a'])), 'default'))
+    shapes = [
+        ('xor', '(declare-const a Bool)\n(assert (xor a false))\n',
+         ['( xor a false )', '( distinct a false )', '( xor a )']),
+        ('nary', '(declare-const n Int)\n(declare-const m Int)\n'
+         '(assert (<= n 5 m))\n',
+         ['( <= n 5 m )', '( and ( <= n 5 ) ( <= 5 m ) )', '( < n 5 m )',
+          '( = n 5 m )']),
+        ('negrel', '(declare-const n Int)\n(assert (not (distinct n 5)))\n',
+         ['( not ( distinct n 5 ) )', '( = n 5 )', '( not ( = n 5 ) )']),
+        ('bvcomp', '(declare-const x (_ BitVec 4))\n(declare-const y '
+         '(_ BitVec 4))\n(assert (= #b1 (bvcomp x y)))\n',
+         ['( = #b1 ( bvcomp x y ) )', '( = x y )',
+          '( = ( _ bv1 1 ) ( bvcomp x y ) )']),
+        ('strrepl', '(declare-const s String)\n(assert (= s '
+         '(str.replace_all s "ab" "c")))\n',
+         ['( str.replace_all s "ab" "c" )', '( str.replace s "ab" "c" )',
+          '( str.replace_all s "" "c" )', '( str.replace_all s "b" "c" )',
+          '( str.replace_all s "a" "c" )']),
+        ('demorgan', '(declare-const a Bool)\n(declare-const b Bool)\n'
+         '(assert (not (and a (=> a b))))\n',
+         ['( not ( and a ( => a b ) ) )', '( or ( not a ) ( not ( => a b ) ) )',
+          '( not ( and a ( or ( not a ) b ) ) )']),
+    ]
+    for name, inp, alts in shapes:
+        fam.append((f'shape-{name}', inp, ('anyof', alts), 'default'))
     for name, inp, model, ms in fam:
         for strat in S.STRATEGIES:
             scn.append(S.mk(f'c18/{name}/{strat}', inp, model, strat, 1,
@@ -118,6 +176,11 @@ def main(tier):
         rep.count('scenario_seed_pairs', len(by_seed))
         if len(allouts) > 1:
             keys = sorted(allouts)
+            # known finding KF-C18-1: outcomes that differ only in the
+            # number inside names x<id>__fresh (ids race between producer
+            # thread and worker); anything else is a violation
+            normed = set(FRESH_NAME.sub('x#__fresh', k) for k in keys)
+            kf = 'fresh-name-numbering' if len(normed) == 1 else None
             a, b = json.loads(keys[0]), json.loads(keys[1])
             where = 'output bytes' if a[0] == b[0] else 'accepted sequence'
             rep.violation(
@@ -130,7 +193,7 @@ def main(tier):
                     'scenario': scns[name],
                     'witnesses': [{'seed': allouts[k][0],
                                    'choices': allouts[k][1]} for k in keys[:2]]
-                })
+                }, kf_sig=kf)
         elif len(rep.coverage['samples']) < 2:
             rep.sample({'scenario': name, 'argv': scns[name]['argv'],
                         'seeds': sorted(by_seed),
